@@ -196,9 +196,9 @@ def lockNames : List String := ["workerRegistry.Mutex"]
 /-- parents, multi, once, joined, joinBeforeDone, leaks -/
 def roots : List Root := [
   ⟨[], false, false, false, [], []⟩,  -- 0 main (main ) func Run()
-  ⟨[0], false, true, true, [], ["app.runConduct: return errors.Errorf(\"time limit reached, initiating hard shutdown\")"]⟩,  -- 1 app.runConduct#1 (worker run.go:263) runWorker(playCtx, ap.stopper, func(ctx context.Context) {
-  ⟨[0], false, true, false, [], []⟩,  -- 2 app.runConduct#3 (go run.go:347) go func() {
-  ⟨[0], false, false, false, [], []⟩,  -- 3 app.runConduct#2 (go run.go:285) go func() {
+  ⟨[0], false, true, true, [], ["app.runConduct: return errors.Errorf(\"time limit reached, initiating hard shutdown\")"]⟩,  -- 1 app.runConduct#1 (worker run.go:264) runWorker(playCtx, ap.stopper, func(ctx context.Context) {
+  ⟨[0], false, true, false, [], []⟩,  -- 2 app.runConduct#3 (go run.go:348) go func() {
+  ⟨[0], false, false, false, [], []⟩,  -- 3 app.runConduct#2 (go run.go:286) go func() {
   ⟨[0], false, true, false, [], []⟩,  -- 4 app.prepareTerm#1 (go app.go:91) go ap.handleResize(stdout)
   ⟨[1], false, true, true, [1], []⟩,  -- 5 prompter.startPrompter#1 (worker conductor.go:259) runWorker(promptCtx, pr.stopper, func(ctx context.Context) {
   ⟨[1], false, true, true, [1], []⟩,  -- 6 spotMgr.startSpotlights#1 (worker conductor.go:321) runWorker(spotCtx, spm.stopper, func(ctx context.Context) {
@@ -820,13 +820,13 @@ def g16 : List Access := [
 def g17 : List Access := [
   A 1 17 false false [] true [(5, .pre), (6, .pre), (7, .pre), (8, .pre)],  -- app.makeTheater conductor.go:203 
   A 1 17 false false [] true [(9, .mid)],  -- app.runForAllActors conductor.go:376 
-  A 3 17 false false [] false [],  -- app.runConduct$2$1 run.go:287 
-  A 2 17 false false [] false [],  -- app.runConduct$3 run.go:361 
+  A 3 17 false false [] false [],  -- app.runConduct$2$1 run.go:288 
+  A 2 17 false false [] false [],  -- app.runConduct$3 run.go:362 
   A 9 17 false false [] true [(12, .pre), (13, .pre), (14, .pre)],  -- app.runForAllActors$3 conductor.go:383 
-  A 0 17 true false [] false [(1, .pre), (2, .pre), (3, .pre), (4, .mid)],  -- app.runConduct run.go:260 
-  A 0 17 false false [] false [(1, .pre), (2, .pre), (3, .pre), (4, .mid)],  -- app.runConduct run.go:263 
-  A 0 17 false false [] false [(1, .mid), (2, .pre), (3, .mid), (4, .mid)],  -- app.runConduct run.go:311 
-  A 0 17 false false [] false [(1, .mid), (2, .mid), (3, .mid), (4, .mid)]  -- app.runConduct run.go:392 
+  A 0 17 true false [] false [(1, .pre), (2, .pre), (3, .pre), (4, .mid)],  -- app.runConduct run.go:261 
+  A 0 17 false false [] false [(1, .pre), (2, .pre), (3, .pre), (4, .mid)],  -- app.runConduct run.go:264 
+  A 0 17 false false [] false [(1, .mid), (2, .pre), (3, .mid), (4, .mid)],  -- app.runConduct run.go:312 
+  A 0 17 false false [] false [(1, .mid), (2, .mid), (3, .mid), (4, .mid)]  -- app.runConduct run.go:393 
 ]
 
 /-- app.terminalWidth -/
@@ -1058,20 +1058,20 @@ def g50 : List Access := [
 
 /-- config.diffs -/
 def g51 : List Access := [
-  A 0 51 false false [] false [(1, .pre), (2, .pre), (3, .pre), (4, .pre)],  -- Run$1 run.go:51 
-  A 0 51 true false [] false [(1, .pre), (2, .pre), (3, .pre), (4, .pre)],  -- Run$1 run.go:52 
+  A 0 51 false false [] false [(1, .pre), (2, .pre), (3, .pre), (4, .pre)],  -- Run$1 run.go:52 
+  A 0 51 true false [] false [(1, .pre), (2, .pre), (3, .pre), (4, .pre)],  -- Run$1 run.go:53 
   A 0 51 false false [] false [(1, .post), (2, .mid), (3, .mid), (4, .mid)]  -- app.assemble result.go:147 
 ]
 
 /-- config.diffs[] -/
 def g52 : List Access := [
-  A 0 52 true false [] false [(1, .pre), (2, .pre), (3, .pre), (4, .pre)],  -- Run$1 run.go:55 
+  A 0 52 true false [] false [(1, .pre), (2, .pre), (3, .pre), (4, .pre)],  -- Run$1 run.go:56 
   A 0 52 false false [] false [(1, .post), (2, .mid), (3, .mid), (4, .mid)]  -- app.assemble result.go:203 
 ]
 
 /-- config.doPrint -/
 def g53 : List Access := [
-  A 0 53 false false [] false [(1, .pre), (2, .pre), (3, .pre), (4, .pre)],  -- Run run.go:116 
+  A 0 53 false false [] false [(1, .pre), (2, .pre), (3, .pre), (4, .pre)],  -- Run run.go:117 
   A 0 53 true false [] false [(1, .pre), (2, .pre), (3, .pre), (4, .pre)]  -- config.initArgs config.go:133 ext:spf13/pflag.BoolVarP
 ]
 
@@ -1083,19 +1083,19 @@ def g54 : List Access := [
 
 /-- config.extraInterpretation -/
 def g55 : List Access := [
-  A 0 55 false false [] false [(1, .pre), (2, .pre), (3, .pre), (4, .pre)],  -- Run run.go:101 
+  A 0 55 false false [] false [(1, .pre), (2, .pre), (3, .pre), (4, .pre)],  -- Run run.go:102 
   A 0 55 true false [] false [(1, .pre), (2, .pre), (3, .pre), (4, .pre)]  -- config.initArgs config.go:143 ext:spf13/pflag.StringSliceVarP
 ]
 
 /-- config.extraScript -/
 def g56 : List Access := [
-  A 0 56 false false [] false [(1, .pre), (2, .pre), (3, .pre), (4, .pre)],  -- Run run.go:79 
+  A 0 56 false false [] false [(1, .pre), (2, .pre), (3, .pre), (4, .pre)],  -- Run run.go:80 
   A 0 56 true false [] false [(1, .pre), (2, .pre), (3, .pre), (4, .pre)]  -- config.initArgs config.go:142 ext:spf13/pflag.StringSliceVarP
 ]
 
 /-- config.includePath -/
 def g57 : List Access := [
-  A 0 57 false false [] false [(1, .pre), (2, .pre), (3, .pre), (4, .pre)],  -- Run run.go:109 
+  A 0 57 false false [] false [(1, .pre), (2, .pre), (3, .pre), (4, .pre)],  -- Run run.go:110 
   A 0 57 true false [] false [(1, .pre), (2, .pre), (3, .pre), (4, .pre)]  -- config.initArgs config.go:137 ext:spf13/pflag.StringSliceVarP
 ]
 
@@ -1107,7 +1107,7 @@ def g58 : List Access := [
 /-- config.keepArtifacts -/
 def g59 : List Access := [
   A 0 59 true false [] false [(1, .pre), (2, .pre), (3, .pre), (4, .pre)],  -- config.initArgs config.go:132 ext:spf13/pflag.BoolVarP
-  A 0 59 false false [] false [(1, .post), (2, .mid), (3, .mid), (4, .mid)]  -- config.run$4 run.go:207 
+  A 0 59 false false [] false [(1, .post), (2, .mid), (3, .mid), (4, .mid)]  -- config.run$4 run.go:208 
 ]
 
 /-- config.pVarNames -/
@@ -1129,7 +1129,7 @@ def g62 : List Access := [
 
 /-- config.parseOnly -/
 def g63 : List Access := [
-  A 0 63 false false [] false [(1, .pre), (2, .pre), (3, .pre), (4, .pre)],  -- Run run.go:131 
+  A 0 63 false false [] false [(1, .pre), (2, .pre), (3, .pre), (4, .pre)],  -- Run run.go:132 
   A 0 63 true false [] false [(1, .pre), (2, .pre), (3, .pre), (4, .pre)]  -- config.initArgs config.go:134 ext:spf13/pflag.BoolVarP
 ]
 
@@ -1167,7 +1167,7 @@ def g66 : List Access := [
 /-- config.removeAll -/
 def g67 : List Access := [
   A 0 67 true false [] false [(1, .pre), (2, .pre), (3, .pre), (4, .pre)],  -- config.initArgs config.go:131 ext:spf13/pflag.BoolVar
-  A 0 67 false false [] false [(1, .post), (2, .mid), (3, .mid), (4, .mid)]  -- config.run$2 run.go:171 
+  A 0 67 false false [] false [(1, .post), (2, .mid), (3, .mid), (4, .mid)]  -- config.run$2 run.go:172 
 ]
 
 /-- config.roleNames -/
@@ -1209,7 +1209,7 @@ def g72 : List Access := [
 /-- config.skipPlot -/
 def g73 : List Access := [
   A 0 73 true false [] false [(1, .pre), (2, .pre), (3, .pre), (4, .pre)],  -- config.initArgs config.go:139 ext:spf13/pflag.BoolVar
-  A 0 73 false false [] false [(1, .post), (2, .mid), (3, .mid), (4, .mid)]  -- config.run run.go:232 
+  A 0 73 false false [] false [(1, .post), (2, .mid), (3, .mid), (4, .mid)]  -- config.run run.go:233 
 ]
 
 /-- config.subDir -/
@@ -1455,7 +1455,7 @@ def g106 : List Access := [
 
 /-- reader.includePath -/
 def g107 : List Access := [
-  A 0 107 true false [] false [(1, .pre), (2, .pre), (3, .pre), (4, .pre)],  -- Run run.go:109 
+  A 0 107 true false [] false [(1, .pre), (2, .pre), (3, .pre), (4, .pre)],  -- Run run.go:110 
   A 0 107 false false [] false [(1, .pre), (2, .pre), (3, .pre), (4, .pre)]  -- subreader.readLine reader.go:255 
 ]
 
@@ -1709,9 +1709,9 @@ def g146 : List Access := [
 
 /-- var errInterrupted -/
 def g147 : List Access := [
-  A 0 147 false false [] false [(1, .mid), (2, .pre), (3, .mid), (4, .mid)],  -- app.runConduct run.go:322 
-  A 0 147 false false [] false [(1, .post), (2, .mid), (3, .mid), (4, .mid)],  -- config.run$3 run.go:182 
-  A 0 147 true false [] false [(1, .pre), (2, .pre), (3, .pre), (4, .pre)]  -- init run.go:401 
+  A 0 147 false false [] false [(1, .mid), (2, .pre), (3, .mid), (4, .mid)],  -- app.runConduct run.go:323 
+  A 0 147 false false [] false [(1, .post), (2, .mid), (3, .mid), (4, .mid)],  -- config.run$3 run.go:183 
+  A 0 147 true false [] false [(1, .pre), (2, .pre), (3, .pre), (4, .pre)]  -- init run.go:402 
 ]
 
 /-- var evalFunctions -/
